@@ -2,16 +2,42 @@
 
 (M)  Unroll.tla: the unrolled inner loop of MatrixDotProduct (k < col-3 step 4, tail from col - col%4, dispatch on
      (int)col-3 > 0) visits every term exactly once for every inner dimension; the classic slip (tail from col%4) is
-     run as a self-test and must be refuted.  Kernels.tla (over IntMat.tla): exact integer definitions of every kernel,
-     the algebraic laws of the property ((AB)' = B'A', A(B+C) = AB+AC, transpose involution, covariance = Gram matrix of
-     the centred data hence symmetric PSD, sort = row permutation ordered by key, ...) checked as invariants over the
-     whole enumerated shape space.
-(GEN) the same TLC run prints every case (every shape triple, operands from a fixed fill over -5..5) together with the
-     exact expected results.
+     run as a self-test and must be refuted.  Kernels.tla (over IntMat.tla): exact integer / rational definitions of
+     every kernel, the algebraic laws of the property ((AB)' = B'A', A(B+C) = AB+AC, transpose involution, covariance =
+     Gram matrix of the centred data hence symmetric PSD, sort = row permutation ordered by key, ...) checked as
+     invariants over the whole enumerated shape space.
+     Second batch (48 library functions in all): DVectNorm, DVectorDVectorDiff/Sum, DVectorMinMax, DVectorMedian,
+     Matrix2Square/ABS/SQRT/LogMatrix, MatrixRowCenterScaling, MatrixSVNScaling, GenIdentityMatrix,
+     MatrixGetMax/MinValueIndex, MatrixColDescStat (13 statistics), PearsonCorrelMatrix, SpearmanCorrelMatrix,
+     DVectorTransposedMatrixDivision, TensorTranspose, KronekerProductVectorMatrix, TensorColAverage, TensorColSDEV.
+     Their definitions: order statistics by counting (Kth, Median2), harmonic mean through the common multiple 60,
+     r^2 = cov_ij^2/(cov_ii cov_jj), rho = (n(n^2-1) - 6 sum d^2)/(n(n^2-1)) over tie-free columns, v/M as the x with
+     x M = v (Cramer's rule by cofactor expansion for n <= 4), integer brackets for sqrt and log10(x+1), the Kronecker
+     product as a re-indexing of the block matrix.  Laws: sum(diff) = sum(a) - sum(b), min <= median <= max (and the
+     order statistics are an ordered permutation), |v/|v||^2 = 1, sqrt(x^2) = |x|, SNV rows have mean 0 and variance 1,
+     harmonic <= arithmetic mean, Pearson symmetric with r^2 <= 1, Spearman symmetric / unit diagonal / in [-1,1] /
+     equal to the Pearson correlation of the ranks / invariant under strictly increasing maps of the columns, the
+     tensor transpose is an involution that permutes indices, an extreme cell exists and the scan order singles out one.
+(GEN) the same TLC run prints every case (every shape, operands from fixed fills) with the exact expected results.
 (C)  replay: harness/c11_replay.c runs every case through the real library (ASan/UBSan build) with operands scaled by
-     2^e, e in {-20,0,20}, one process per library function; integer results must be equal, quotients within 1e-12.
-     validate: what MatrixSort/MatrixReverseSort returned is recorded and judged by TLC (TraceKernels.tla: Prop = any
-     row permutation ordered by the key, Impl = the permutation of the present exchange sort).
+     2^e, e in {-20,0,20}, one process per library function; the second batch also in mixed units (column j in unit
+     2^{-20,0,20}[j mod 3]) and a second time into an already sized, non-zero output.  Integer results must be equal,
+     quotients within 1e-12 / a few ulp, irrational results through their squares or integer brackets.
+     validate: what MatrixSort/MatrixReverseSort and MatrixGetMax/MinValueIndex returned is recorded and judged by TLC
+     (TraceKernels.tla: Prop = any row permutation ordered by the key / any extreme cell, Impl = the permutation of the
+     present exchange sort / the last extreme cell of the column-major scan).
+Outside the statement (EXTRA-FINDING only, see EXTRA_ONLY): MatrixColDescStat on columns holding the MISSING code (modelled as
+     the statistics of the column without that cell); PearsonCorrelMatrix (also: it returns r^2 rather than r, both accepted) and
+     SpearmanCorrelMatrix; GenIdentityMatrix; MatrixGetMax/MinValueIndex; the element-wise maps; the two row scalings; the
+     right division.  The specification defines them exactly and the replay/trace validation runs for them like for the others,
+     but no sentence of C11 promises them, so their deviations are reported and never judged.  On the present tree these are
+     reported: extreme-cell scan skips row 0 of every column but the first (MatrixGetMax/MinValueIndex), PearsonCorrelMatrix's
+     `(int)floor(a*b) == 0` guard (undefined behaviour at scale 2^20, zero at 2^-20), SpearmanCorrelMatrix matching ranks with an
+     absolute 1e-3 tolerance, GenIdentityMatrix leaving stale off-diagonal cells in an already sized matrix (candidate repairs
+     in fixes/C11-*.diff, NOT applied to /repo because no listed property is violated).
+Excluded with reason: MatrixMatrixDistance and CovarianceDistanceMap (metricspace.h: the header comments do not fix a
+     definition); statistics / extreme cell / median of EMPTY operands and normalising the zero vector (undefined);
+     rows summing to zero (MatrixRowCenterScaling), constant rows (SNV) and constant columns (Pearson) are skipped.
 """
 import os, shutil
 from vf import build, tlc, trace
@@ -20,16 +46,23 @@ from vf.core import InfraError
 
 LEVEL = "model_checking"
 READY = True
-TECHNIQUE = ("TLC as exact oracle: Kernels.tla/IntMat.tla define every dense kernel over integers, TLC enumerates every operand shape, checks the "
-             "algebraic laws as invariants and prints operands + exact expected results; a C driver replays every case through the real library "
-             "(ASan/UBSan) at three dyadic scales; sorting results are trace-validated by TLC; Unroll.tla model-checks the unrolled loop's index set")
+TECHNIQUE = ("TLC as exact oracle: Kernels.tla/IntMat.tla define every dense kernel (48 library functions) over integers / exact rationals, TLC enumerates every operand shape, "
+             "checks 24 algebraic laws as invariants and prints operands + exact expected results; a C driver replays every case through the real library "
+             "(ASan/UBSan) at three dyadic scales, in mixed per-column units and into stale outputs; sorting results and extreme-cell positions are trace-validated by TLC; "
+             "Unroll.tla model-checks the unrolled loop's index set")
 LEVEL_TEXT = ("Every shape triple of the property's quantifier (0..17 cubed in the thorough tier; 0..9 cubed plus every inner-dimension residue up to 17 "
               "in the quick tier) is enumerated by TLC, the laws are invariants of that enumeration, and each case's exact result computed by TLC is "
               "compared with what the real kernel returns for operands scaled by 2^-20, 1 and 2^20; the index set of the unrolled loop is model-checked "
-              "separately for every inner dimension.")
+              "separately for every inner dimension. The second batch (norms, differences, order statistics, descriptive statistics, row scalings, element-wise maps, "
+              "Pearson/Spearman matrices, right division, tensor transpose / Kronecker product / column statistics) is enumerated over every shape 0..17 x 0..17 in the "
+              "thorough tier (11 x 11 representative sizes incl. 0, 1 and 17 in the quick tier), tensors of 1..4 slices, and additionally replayed in mixed per-column units "
+              "and into already sized non-zero outputs.")
 LEVEL_NOTE = ("Trusts TLC's integer arithmetic, the text conversion of TLC's output, the harness's comparison (exact for integer results, 1e-12 relative "
-              "for quotients, squares for norms/SDEV) and ASan/UBSan as memory monitor. Operand VALUES are deterministic fills over -5..5 (one per shape in the quick "
-              "tier, three in the thorough tier, each at three scales), not all values; shapes are exhaustive within the stated bounds.")
+              "for quotients, squares for norms/SDEV, integer brackets for sqrt/log10) and ASan/UBSan as memory monitor. Operand VALUES are deterministic fills over -5..5 "
+              "(1..6 for the harmonic mean, tie-free residues mod 19 for the rank correlation, strictly diagonally dominant divisors, 0..999999 for the logarithm; one per shape in the quick "
+              "tier, three in the thorough tier, each at three scales), not all values; shapes are exhaustive within the stated bounds. Tie handling of SpearmanCorrelMatrix, "
+              "the statistics of columns holding the MISSING code (EXTRA-FINDING only) and the r versus r^2 reading of PearsonCorrelMatrix are outside the verdict; "
+              "MatrixMatrixDistance and CovarianceDistanceMap are not covered (no unambiguous definition in the header).")
 
 W = int(os.environ.get("VERIF_WORKERS", "16"))
 
@@ -56,8 +89,32 @@ FUNCS = [
     ("DVectorDVectorDotProd", "DVector"), ("DvectorModule", "DVector"), ("DVectorMean", "DVector"), ("DVectorSDEV", "DVector"),
     ("TransposedTensorDVectorProduct", "Tensor"), ("DvectorTensorDotProduct", "Tensor"), ("TensorMatrixDotProduct", "Tensor"),
     ("MatrixSort", "Sort"), ("MatrixReverseSort", "Sort"),
+    # second batch
+    ("DVectNorm", "DVector2"), ("DVectorDVectorDiff", "DVector2"), ("DVectorDVectorSum", "DVector2"), ("DVectorMinMax", "DVector2"), ("DVectorMedian", "DVector2"),
+    ("Matrix2SquareMatrix", "MatMaps"), ("Matrix2ABSMatrix", "MatMaps"), ("Matrix2SQRTMatrix", "MatMaps"), ("Matrix2LogMatrix", "MatMaps"),
+    ("MatrixRowCenterScaling", "MatMaps"), ("MatrixSVNScaling", "MatMaps"), ("GenIdentityMatrix", "MatMaps"),
+    ("MatrixGetMaxValueIndex", "MatMaps"), ("MatrixGetMinValueIndex", "MatMaps"),
+    ("MatrixColDescStat", "DescStat"), ("MatrixColDescStat@missing", "DescStatMiss"),
+    ("PearsonCorrelMatrix", "Correl"), ("SpearmanCorrelMatrix", "Correl"), ("DVectorTransposedMatrixDivision", "Division"),
+    ("TensorTranspose", "Tensor"), ("KronekerProductVectorMatrix", "Tensor"), ("TensorColAverage", "Tensor"), ("TensorColSDEV", "Tensor"),
 ]
 FAMILIES = sorted(set(f for _, f in FUNCS))
+FIRST_BATCH = set(fn for fn, _ in FUNCS[:26])          # their signatures keep the two classes they always had
+# results recorded for TLC (trace validation) instead of being compared with one expected value
+RECORDED = {"MatrixSort": "Sort", "MatrixReverseSort": "Sort", "MatrixGetMaxValueIndex": "ArgExt", "MatrixGetMinValueIndex": "ArgExt"}
+# behaviour the extended specification models exactly but the statement of C11 does not promise: deviations are EXTRA-FINDINGs, never a verdict
+#   MatrixColDescStat@missing: the statistics of a column that holds the MISSING code (only the .c comment mentions missing values, no header documents skipping)
+#   The statement of C11 names products, outer products, transpose, trace, norms, covariance, column/row statistics, sorting and the tensor contractions
+#   (anchors: matrix.c MatrixColAverage..MatrixColVar, MatrixCovariance, Matrixnorm, MatrixSort, tensor.c contractions).  The routines below are dense
+#   kernels the specification defines exactly as well, but no sentence of the statement promises them: identity generation, position of the extreme
+#   cell, element-wise maps, row scalings, correlation matrices, right division.  Their deviations are reported, never judged.
+EXTRA_ONLY = {"MatrixColDescStat@missing", "GenIdentityMatrix", "MatrixGetMaxValueIndex", "MatrixGetMinValueIndex",
+              "Matrix2LogMatrix", "Matrix2SquareMatrix", "Matrix2SQRTMatrix", "Matrix2ABSMatrix", "MatrixRowCenterScaling", "MatrixSVNScaling",
+              "PearsonCorrelMatrix", "SpearmanCorrelMatrix", "DVectorTransposedMatrixDivision"}
+BATCH2 = {"DVector2", "MatMaps", "DescStat", "DescStatMiss", "Correl", "Division"}
+LAWS = ["LawProductTranspose", "LawDistributive", "LawTraceCyclic", "LawShapes", "LawInvolution", "LawMatVec", "LawVecMat", "LawOuter", "LawTrace", "LawNorm",
+        "LawCovariance", "LawColStats", "LawTensor", "LawSort", "LawVecDiffSum", "LawOrderStats", "LawUnitNorm", "LawMaps", "LawArgExt", "LawDescStat",
+        "LawDescStatMiss", "LawCorrel", "LawDivision", "LawTensor2"]
 
 
 def _flat(x, out):
@@ -69,9 +126,11 @@ def _flat(x, out):
     return out
 
 
-def _write_cases(path, emits):
+def _write_cases(path, emits, fam=None):
     with open(path, "w") as f:
         for e in emits:
+            if fam is not None and e["kern"] != fam:
+                continue
             f.write("%s %d %d %d %d %d %d\n" % (e["kern"], e["sd"], e["r"], e["k"], e["c"], len(e["inp"]), len(e["out"])))
             for a in list(e["inp"]) + list(e["out"]):
                 v = _flat(a, [])
@@ -83,7 +142,7 @@ def shape_class(fam, r, k, c):
     if fam == "MatrixDotProduct":
         inner = inner_class(k)
         return inner + (" with an empty outer dimension" if r == 0 or c == 0 else "")
-    if fam == "DVector":
+    if fam in ("DVector", "DVector2", "Division"):
         return "empty" if r == 0 else "size %d" % r
     pre = "%d slices of " % k if fam == "Tensor" else ""
     if r == 0 or c == 0:
@@ -102,13 +161,29 @@ def fail_class(fam, e):
     class of the inner dimension (plain loop / unrolled loop with tail 0..3) is exactly what the property quantifies over"""
     if fam == "MatrixDotProduct":
         return inner_class(e["k"])
-    return "tiny-scale" if e.get("scales") == 1 else "value"      # fails only for operands scaled by 2^-20 / at the unit scale too
+    sc = e.get("scales", 2)
+    if e.get("fn") in FIRST_BATCH:
+        return "tiny-scale" if sc == 1 else "value"      # fails only for operands scaled by 2^-20 / at the unit scale too
+    if e.get("stale"):
+        return "stale-output"                  # first seen in the second call into an already sized, non-zero output
+    if sc & 2:
+        return "value"                         # fails at the unit scale too
+    if not sc & 4:
+        return "tiny-scale"                    # fails only where operands are scaled by 2^-20 (alone or in the mixed-units pass)
+    return "large-scale" if not sc & 1 else "scale"
+
+
+def _scales_text(sc):
+    names = [(1, "2^-20"), (2, "1"), (4, "2^20"), (8, "mixed per-column units")]
+    bad = [n for b, n in names if sc & b]
+    good = [n for b, n in names if not sc & b and b != 8]
+    return "; fails at scales {%s}%s" % (", ".join(bad), (", correct at {%s}" % ", ".join(good)) if good else "")
 
 
 def _nontrivial(fam, r, k, c):
     if fam == "MatrixDotProduct":
         return k >= 1 and r >= 1 and c >= 1
-    if fam == "DVector":
+    if fam in ("DVector", "DVector2", "Division"):
         return r >= 1
     return r >= 1 and c >= 1
 
@@ -136,18 +211,28 @@ def _gen(ctx, cfg, label):
     return r
 
 
+def _report(ctx, fn, sig, what, replay_case):
+    """a deviation of an EXTRA_ONLY pseudo-function is reported as EXTRA-FINDING, everything else is a violation"""
+    if fn in EXTRA_ONLY:
+        ctx.extra(sig, what)
+    else:
+        ctx.violation(sig, what, replay_case)
+
+
 def _drive(ctx, emits, funcs, rd, tag=""):
-    """run the harness, one process per library function; returns the recorded Sort events"""
+    """run the harness, one process per library function; returns the recorded Sort / ArgExt events"""
     fams = {}
     for e in emits:
         fams.setdefault(e["kern"], []).append(e)
-    cases = os.path.join(rd, "cases%s.txt" % tag)
-    _write_cases(cases, emits)
+    casefile = {}
+    for fam in fams:
+        casefile[fam] = os.path.join(rd, "cases%s-%s.txt" % (tag, fam))
+        _write_cases(casefile[fam], fams[fam])
     lib = build.build_lib("san")
     exe = build.build_harness("c11", ["c11_replay.c"], lib)
-    jobs = [[cases, os.path.join(rd, "o%s-%s.ndjson" % (tag, fn)), fn] for fn, fam in funcs if fam in fams]
+    jobs = [[casefile[fam], os.path.join(rd, "o%s-%s.ndjson" % (tag, fn.replace("@", "_"))), fn] for fn, fam in funcs if fam in fams]
     res = hrun.run_many(exe, jobs, timeout=1500, workers=W)
-    sort_events = []
+    rec_events = []
     for j, h in zip(jobs, res):
         fn = j[2]
         fam = dict(FUNCS)[fn]
@@ -159,6 +244,7 @@ def _drive(ctx, emits, funcs, rd, tag=""):
         done = [e for e in ev if e.get("e") == "Done"]
         crash = [e for e in ev if e.get("e") == "Crash"]
         nres = 0
+        nrec = 0
         for e in ev:
             if e["e"] == "Res":
                 nres += 1
@@ -166,46 +252,74 @@ def _drive(ctx, emits, funcs, rd, tag=""):
                 if e.get("drift"):
                     ctx.spec_drift("%s returns a non-zero value for a non-square %dx%d matrix (undefined by the property; only memory safety is judged)" % (fn, e["r"], e["c"]))
                 if not e["ok"]:
-                    ctx.violation("KERNEL:%s:%s" % (fn, fail_class(fam, e)),
-                                  "%s on shape r=%d k=%d c=%d (%s), operands scaled by 2^%d: cell %s is %s, the definition (%s) gives %s%s"
-                                  % (fn, e["r"], e["k"], e["c"], shape_class(fam, e["r"], e["k"], e["c"]), e["exp"], e["at"], e["got"], e["what"], e["want"],
-                                     "; correct at scales 1 and 2^20" if e.get("scales") == 1 else ""),
-                                  dict(kind="kernel", fn=fn, sd=e["sd"], r=e["r"], k=e["k"], c=e["c"], exp=e["exp"]))
+                    exp_txt = "in mixed per-column units" if e["exp"] == 99 else "scaled by 2^%d" % e["exp"]
+                    _report(ctx, fn, "KERNEL:%s:%s" % (fn, fail_class(fam, e)),
+                            "%s on shape r=%d k=%d c=%d (%s), operands %s%s: cell %s is %s, the definition (%s) gives %s%s"
+                            % (fn, e["r"], e["k"], e["c"], shape_class(fam, e["r"], e["k"], e["c"]), exp_txt,
+                               ", second call into an already sized non-zero output" if e.get("stale") else "", e["at"], e["got"], e["what"], e["want"],
+                               "; correct at scales 1 and 2^20" if e.get("scales") == 1 else (_scales_text(e["scales"]) if fam in BATCH2 or e.get("scales", 0) & 8 else "")),
+                            dict(kind="kernel", fn=fn, sd=e["sd"], r=e["r"], k=e["k"], c=e["c"], exp=e["exp"]))
             elif e["e"] == "Sort":
-                nres += 1
+                nrec += 1
                 ctx.case((fn, e["sd"], e["rows"], e["key"], e["cols"], e["exp"]), e["rows"] >= 2)
-                sort_events.append(e)
+                rec_events.append(e)
+            elif e["e"] == "ArgExt":
+                nrec += 1
+                ctx.case((fn, e["sd"], e["rows"], e["cols"], e["exp"]), e["rows"] * e["cols"] >= 2)
+                rec_events.append(e)
             elif e["e"] == "Reset":
-                sort_events.append(e)
+                nres += 1
+                rec_events.append(e)
+            elif e["e"] == "Note" and e.get("what") == "rsq":
+                ctx.extra("KERNEL:%s:r-squared" % fn,
+                          "%s returns the SQUARE of the Pearson coefficient (cell %s of a %dx%d operand: %s, Pearson r = %s): the sign of a negative correlation is lost; the header says "
+                          "'pearson correlation matrix', the .c comment names the quantity RSQ - the specification accepts either reading" % (fn, e["at"], e["r"], e["c"], e["got"], e["pearson"]))
         if h.rc != 0 or not done:
             last = crash[-1] if crash else {}
             r_, k_, c_ = last.get("r", -1), last.get("k", -1), last.get("c", -1)
             sc = shape_class(fam, r_, k_, c_) if crash else "unknown"
             kind = h.san or "crash:rc%d" % h.rc
-            ctx.violation("KERNEL:%s:%s" % (fn, ":".join(kind.split(":")[:2])),
-                          "%s on shape r=%s k=%s c=%s (%s; scale 2^%s): %s\n%s" % (fn, r_, k_, c_, sc, last.get("exp", "?"), kind, _san_brief(h.err)),
-                          dict(kind="kernel", fn=fn, sd=last.get("sd", 0), r=r_, k=k_, c=c_, exp=last.get("exp", 0)))
+            _report(ctx, fn, "KERNEL:%s:%s" % (fn, ":".join(kind.split(":")[:2])),
+                    "%s on shape r=%s k=%s c=%s (%s; %s): %s\n%s" % (fn, r_, k_, c_, sc, "mixed per-column units" if last.get("exp") == 99 else "scale 2^%s" % last.get("exp", "?"), kind, _san_brief(h.err)),
+                    dict(kind="kernel", fn=fn, sd=last.get("sd", 0), r=r_, k=k_, c=c_, exp=last.get("exp", 0)))
         elif done[0]["cases"] != len(fams[fam]) or nres < len(fams[fam]):
             raise InfraError("c11 harness ran %s cases of %s, %d were generated" % (done[0]["cases"], fn, len(fams[fam])))
-    return sort_events
+        elif fn in RECORDED and nrec == 0 and any(_nontrivial(fam, e["r"], e["k"], e["c"]) for e in fams[fam]):
+            raise InfraError("c11 harness recorded no %s event for %s" % (RECORDED[fn], fn))
+    return rec_events
 
 
-def _check_sort(ctx, sort_events, label="trace_sort", selftest=True):
-    if not any(e["e"] == "Sort" for e in sort_events):
+def _check_recorded(ctx, rec_events, label="trace_sort", selftest=True):
+    """Sort and ArgExt events, one trace, judged by TLC (TraceKernels.tla)"""
+    kinds = set(e["e"] for e in rec_events) - {"Reset"}
+    if not kinds:
         return
-    ev = [{k: v for k, v in e.items() if k not in ("exp", "sd")} for e in sort_events]
-    src = {id(a): b for a, b in zip(ev, sort_events)}
+    ev = [{k: v for k, v in e.items() if k not in ("exp", "sd")} for e in rec_events]
+    src = {id(a): b for a, b in zip(ev, rec_events)}
 
     def on_reject(e, idx, block):
         o = src.get(id(e), e)
         fn = e.get("fn", "MatrixSort")
-        ctx.violation("KERNEL:%s:order" % fn, "%s by column %s of %s (scale 2^%s) returned %s: not a permutation of the rows ordered by the key column"
-                      % (fn, e.get("key"), e.get("m"), o.get("exp", "?"), e.get("res")),
-                      dict(kind="kernel", fn=fn, sd=o.get("sd", 0), r=e.get("rows"), k=e.get("key"), c=e.get("cols"), exp=o.get("exp", 0)))
+        if e.get("e") == "ArgExt":
+            m = e.get("m") or [[0]]
+            flat = [x for row in m for x in row]
+            ext = max(flat) if e.get("max") else min(flat)
+            inside = 0 <= e.get("row", -1) < e.get("rows", 0) and 0 <= e.get("col", -1) < e.get("cols", 0)
+            _report(ctx, fn, "KERNEL:%s:position" % fn,
+                          "%s on a %dx%d matrix (scale 2^%s) returned position [%s][%s] (%s) but the %s value is %s: %s"
+                          % (fn, e.get("rows"), e.get("cols"), o.get("exp", "?"), e.get("row"), e.get("col"),
+                             "value %s" % m[e["row"]][e["col"]] if inside else "outside the matrix", "largest" if e.get("max") else "smallest", ext, m),
+                          dict(kind="kernel", fn=fn, sd=o.get("sd", 0), r=e.get("rows"), k=0, c=e.get("cols"), exp=o.get("exp", 0)))
+        else:
+            ctx.violation("KERNEL:%s:order" % fn, "%s by column %s of %s (scale 2^%s) returned %s: not a permutation of the rows ordered by the key column"
+                          % (fn, e.get("key"), e.get("m"), o.get("exp", "?"), e.get("res")),
+                          dict(kind="kernel", fn=fn, sd=o.get("sd", 0), r=e.get("rows"), k=e.get("key"), c=e.get("cols"), exp=o.get("exp", 0)))
         return lambda x: x.get("fn") == fn
     trace.check_trace(ctx, "TraceKernels", "Trace_Kernels.cfg", "Trace_Kernels_prop.cfg", ev, on_reject, drop="event", label=label, timeout=1500)
-    ctx.traces(sum(1 for e in ev if e["e"] == "Sort"))
-    if selftest:
+    ctx.traces(sum(1 for e in ev if e["e"] != "Reset"))
+    if not selftest:
+        return
+    if "Sort" in kinds:
         def corrupt(evs):
             for e in evs:
                 if e["e"] == "Sort" and e["rows"] >= 3 and e["cols"] >= 2:
@@ -214,6 +328,27 @@ def _check_sort(ctx, sort_events, label="trace_sort", selftest=True):
             return False
         sub = [e for e in ev if e["e"] == "Sort" and e["rows"] >= 3 and e["cols"] >= 2][:30]
         trace.binding_selftest(ctx, "TraceKernels", "Trace_Kernels_prop.cfg", sub, corrupt, "binding_sort")
+    if "ArgExt" in kinds:
+        def corrupt_arg(evs):
+            for e in evs:
+                if e["e"] == "ArgExt" and e["rows"] >= 2 and e["cols"] >= 2:
+                    flat = [x for row in e["m"] for x in row]
+                    if min(flat) == max(flat):
+                        continue
+                    # point at a cell that does not hold the extreme value
+                    for i in range(e["rows"]):
+                        for j in range(e["cols"]):
+                            if e["m"][i][j] != e["m"][e["row"]][e["col"]]:
+                                e["row"], e["col"] = i, j
+                                return True
+            return False
+        def holds_extreme(e):
+            flat = [x for row in e["m"] for x in row]
+            return 0 <= e["row"] < e["rows"] and 0 <= e["col"] < e["cols"] and e["m"][e["row"]][e["col"]] == (max(flat) if e["max"] else min(flat))
+        sub = [e for e in ev if e["e"] == "ArgExt" and e["rows"] >= 2 and e["cols"] >= 2 and holds_extreme(e)][:30]
+        if not sub:
+            raise InfraError("no ArgExt event large enough for the binding self-test")
+        trace.binding_selftest(ctx, "TraceKernels", "Trace_Kernels_prop.cfg", sub, corrupt_arg, "binding_argext")
 
 
 def run(ctx):
@@ -223,6 +358,13 @@ def run(ctx):
         "outputs are pre-zeroed where the kernels accumulate with += ; variances/covariance need >= 2 rows, averages >= 1 row/column (outside: only memory safety is judged)",
         "ASan/UBSan build: any sanitizer report while a kernel runs on a conformable operand shape is a violation",
         "MatrixSort/MatrixReverseSort results are judged by TLC on the recorded input/output (any row permutation ordered by the key is accepted)",
+        "second batch: every routine is fed inside its domain only (non-zero vector for DVectNorm, >= 1 entry for min/max/median, positive entries 1..6 for the harmonic mean and CV, >= 2 rows for sample statistics and correlations, "
+        "non-constant columns for Pearson, tie-free columns for Spearman, rows with non-zero sum / non-constant rows for the row scalings, strictly diagonally dominant M for v/M, log10(x+1) on 0..999999 at the unit scale only); outside: memory safety only",
+        "second batch tolerances: sums/differences/min/max/median/maps/transpose/Kronecker exact; averages and x/rowsum 4 ulp; harmonic mean 1e-13; variances, CV^2, SNV^2, r^2 1e-12; rho 1e-13 absolute; v/M 1e-9 max|x|; "
+        "sqrt through its square (4 ulp) and floor bracket; log10(x+1) 4 ulp where x+1 is a power of ten, a 1/3-wide integer bracket elsewhere; the zero count of MatrixColDescStat is judged at scales >= 1 only "
+        "(the routine's own 1e-6 zero threshold exceeds the 2^-20 unit)",
+        "PearsonCorrelMatrix may return r or r^2 (the tree returns r^2: EXTRA-FINDING); MatrixColDescStat's column layout is the tree's (avg, median, harmonic, var pop/sample, sdev pop/sample, CV pop/sample, min, max, zeros, missing)",
+        "MatrixGetMaxValueIndex/MatrixGetMinValueIndex results are judged by TLC on the recorded matrix and position (any cell holding the extreme value is accepted)",
     ]
     _unroll(ctx)
     r = _gen(ctx, "MC_Kernels_quick.cfg" if ctx.quick else "MC_Kernels_thorough.cfg", "mc_gen_kernels")
@@ -233,11 +375,11 @@ def run(ctx):
     if missing:
         raise InfraError("vacuous run: no case generated for families %s" % missing)
     ctx.steps["mc_gen_kernels"]["cases_per_family"] = fams
-    ctx.note("Kernels: %d cases enumerated, 14 laws hold on all of them (%.1fs)" % (len(r.emits), r.wall))
+    ctx.note("Kernels: %d cases enumerated, %d laws hold on all of them (%.1fs)" % (len(r.emits), len(LAWS), r.wall))
     rd = tlc.rundir()
     try:
         sort_events = _drive(ctx, r.emits, FUNCS, rd)
-        _check_sort(ctx, sort_events)
+        _check_recorded(ctx, sort_events)
     finally:
         shutil.rmtree(rd, ignore_errors=True)
     for e in r.emits:
@@ -249,10 +391,18 @@ def run(ctx):
     for e in sort_events:
         if e["e"] == "Sort" and e["rows"] == 4 and e["cols"] == 2 and e["exp"] == 0:
             ctx.sample(e, 6)
+    for e in r.emits:
+        if (e["kern"], e["r"], e["c"]) in (("Correl", 4, 2), ("DescStat", 3, 2), ("DVector2", 5, 1)):
+            ctx.sample(e, 9)
+    for e in sort_events:
+        if e["e"] == "ArgExt" and e["rows"] == 3 and e["cols"] == 2 and e["exp"] == 0:
+            ctx.sample(e, 10)
     ctx.cov["rule"] = ("TLC enumerates every operand shape (MatrixDotProduct: %s; other kernels: rows, columns 0..17; tensors 1..4 slices; sort 1..4 columns, every key; %d operand fill(s) per shape) "
-                       "and each case is run through each library function of its family at 3 scales; a case is keyed by (function, fill, rows, inner mod 4, inner < 4, columns); "
+                       "and each case is run through each library function of its family at 3 scales; second batch: vectors and divisors of size 0..17, matrices %s, additionally in mixed per-column units and "
+                       "into stale outputs; a case is keyed by (function, fill, rows, inner mod 4, inner < 4, columns); "
                        "non-trivial = no empty dimension (inner dimension >= 1 for the products)"
-                       % ("0..9 cubed plus inner 10..17 for rows, columns in {1,2,5}" if ctx.quick else "0..17 cubed", 1 if ctx.quick else 3))
+                       % ("0..9 cubed plus inner 10..17 for rows, columns in {1,2,5}" if ctx.quick else "0..17 cubed", 1 if ctx.quick else 3,
+                          "rows, columns in {0..7, 9, 12, 17}" if ctx.quick else "rows, columns 0..17"))
     ctx.cov["exhaustive"] = True
 
 
@@ -265,23 +415,25 @@ def replay(ctx, body):
     r_, k_, c_ = case["r"], case["k"], case["c"]
     rd = tlc.rundir()
     try:
-        consts = dict(KernelSet='{"%s"}' % fam, RSet=[], KSet=[], CSet=[], XRC=[], XK=[], DSet=[], SliceSet=[], SortCols=[], SeedSet=[case.get("sd", 0)], DoEmit=True)
+        consts = dict(KernelSet='{"%s"}' % fam, RSet=[], KSet=[], CSet=[], XRC=[], XK=[], DSet=[], ESet=[], SliceSet=[], SortCols=[], SeedSet=[case.get("sd", 0)], DoEmit=True)
         if fam == "MatrixDotProduct":
             consts.update(RSet=[r_], KSet=[k_], CSet=[c_])
         elif fam == "Tensor":
             consts.update(DSet=sorted({r_, c_}), SliceSet=[k_])
         elif fam == "Sort":
             consts.update(DSet=[r_], SortCols=sorted({k_, c_}))
+        elif fam in ("MatMaps", "DescStat", "DescStatMiss", "Correl"):
+            consts.update(ESet=sorted({r_, c_}))
         else:
             consts.update(DSet=sorted({r_, c_}))
         cfg = tlc.write_cfg(os.path.join(rd, "replay.cfg"), spec="Spec", constants=consts, constraints=["EmitCase"], deadlock=False,
-                            invariants=["LawProductTranspose", "LawDistributive", "LawInvolution", "LawCovariance", "LawSort"])
+                            invariants=LAWS)
         g = _gen(ctx, cfg, "gen_replay")
         emits = [e for e in g.emits if (e["r"], e["k"], e["c"]) == (r_, k_, c_)]
         if not emits:
             raise InfraError("replay case not regenerated by TLC: %s" % case)
         sort_events = _drive(ctx, emits, [(fn, fam)], rd, "r")
-        _check_sort(ctx, sort_events, "trace_sort_replay", selftest=False)
+        _check_recorded(ctx, sort_events, "trace_sort_replay", selftest=False)
         ctx.case(("replay", fn, r_, k_, c_))
         ctx.case(("replay2", fn, r_, k_, c_))
         ctx.sample(emits[0])
